@@ -158,6 +158,9 @@ def run(ctx):
                 prior = [x for x in p.events[:i] if x.kind == "SUB" and not x.raised and x.loops == e.loops]
                 ctx.ob("C09.R4", fi, bool(prior), "append is preceded by a successful element parse in the same iteration", key="append order", node=e.node)
     ctx.ob("C09.R4", fi, n_fail >= 1 and n_app >= 1, "failing and succeeding element edges were analysed", key="edges covered")
+    # "what the successive elements alone would have returned": element k is parsed as element k (shared with C07.R5)
+    from . import C07 as _C07
+    _C07.element_index(ctx, "C09.R4", [("GreedyRange", "_parse")])
     for cls, rule in (("Select", "C09.R3"), ("GreedyRange", "C09.R4")):
         f2, ps = own_method_paths(ctx, cls, "_parse")
         trs2 = [t for t in uniq_events(ps, "TRY") if any(e.kind == "SUB" and t["tid"] in e.trys for p in ps for e in p.events)]
